@@ -63,7 +63,7 @@ Seeds == {
               properties |-> << <<"a", Ty("integer")>>, <<"b", Empty>> >>]) >>]),
   Sch([types |-> <<"object", "null">>,
        properties |-> << <<"a", Sch([types |-> <<"integer", "number">>])>> >>,
-       depsL |-> << <<"a", <<"b">> >> >>,
+       depsL |-> << <<"a", <<"b">> >>, <<"class", <<"a">> >> >>,
        depsS |-> << <<"b", Sch([required |-> <<"a">>])>> >>]),
   Sch([type |-> "array", items |-> Sch([type |-> "number", default |-> JInt(0)]),
        uniqueItems |-> TRUE, default |-> JArr(<<JInt(1)>>)]),
